@@ -156,6 +156,39 @@ def enc_heap(v, max_string):
     return "|".join(objs), root, table
 
 
+# ------------------------------------------------------------------ width oracle (table only, none of rich.cells' code)
+_TABLE = None
+
+
+def table_cell_len(text):
+    """cell width of a string from rich/_cell_widths.py alone: first row containing the code point, -1 -> 0,
+    default 1, ASCII 32..126 -> 1 (the documented behaviour that C13 proves of rich.cells)."""
+    global _TABLE
+    if _TABLE is None:
+        import bisect
+
+        from rich._cell_widths import CELL_WIDTHS
+
+        starts = [r[0] for r in CELL_WIDTHS]
+        _TABLE = (bisect, starts, CELL_WIDTHS, {})
+    bisect, starts, rows, cache = _TABLE
+    total = 0
+    for ch in text:
+        cp = ord(ch)
+        if 32 <= cp < 127:
+            total += 1
+            continue
+        w = cache.get(cp)
+        if w is None:
+            i = bisect.bisect_right(starts, cp) - 1
+            w = 1
+            if i >= 0 and rows[i][0] <= cp <= rows[i][1]:
+                w = 0 if rows[i][2] == -1 else rows[i][2]
+            cache[cp] = w
+        total += w
+    return total
+
+
 # ------------------------------------------------------------------ deep typed equality
 def same(a, b):
     """equal value of the same type, at every level (floats by repr so that -0.0 != 0.0)."""
